@@ -427,6 +427,11 @@ func (m *Manager) IsWatchOnlyAccount(ns walletdb.ReadBucket, keyScope KeyScope,
 // TODO(yy): Rename this to wipe memory for priv keys.
 func (m *Manager) lock() {
 	for _, manager := range m.scopedManagers {
+		// Drop the private keys derived and cached while unlocked.
+		manager.privKeyCache = lru.NewCache[DerivationPath, *cachedKey](
+			defaultPrivKeyCacheSize,
+		)
+
 		// Clear all of the account private keys.
 		for _, acctInfo := range manager.acctInfo {
 			if acctInfo.acctKeyPriv != nil {
